@@ -31,6 +31,7 @@ def spaces(tier):
             dict(size=1, level=0, cfg='K0', t0=['empty', 'full', 'dir_d_j'], mut='rel', faults='mkdir'),
             dict(size=1, level=2, cfg='K0', t0=['empty', 'dir_d', 'dir_d_e', 'file_d'], mut='none', kw=longp),
             dict(size=2, level=1, cfg='K0', t0=['empty', 'dir_d_j'], mut='none', kw=small, faults='mkdir'),
+            dict(family='pairs', size=1, level=1, cfg='K0', t0=['empty'], mut='none', faults='mkdir'),
         ]
     return [
         dict(size=1, level=1, cfg='K0', t0=list(gen.T0S), mut='rel', kw=excs),
@@ -41,6 +42,7 @@ def spaces(tier):
         dict(size=1, level=2, cfg='K0', t0=list(gen.T0S), mut='none', kw=longp),
         dict(size=2, level=2, cfg='K0', t0=['empty', 'dir_d_j', 'full', 'file_d'], mut='outputs', faults='mkdir'),
         dict(family='chain3', size=3, level=1, cfg='K0', t0=['empty'], mut='none', faults='mkdir'),
+        dict(family='pairs', size=1, level=2, cfg='K0', t0=['empty', 'full', 'dir_d_j'], mut='none', faults='mkdir'),
     ]
 
 
@@ -101,6 +103,29 @@ def work(ctx, task):
     full = mutation_alphabet()
     capped = False
     wf = bool(sp.get('faults'))
+    if sp.get('family') == 'pairs':
+        # target whose ancestor (or itself) was an output file / directory of the previous build of another program,
+        # incl. over-long components below such a path
+        paths = list(gen.U) + ['d/' + LONG + '/z', 'd/e/' + LONG + '/z', 'a/' + LONG + '/z', 'a/q/' + LONG + '/z']
+        first = [{'k': 'bf', 'p': p, 'mode': 'ok', 'catch': True, 'ch': []} for p in gen.U]
+        second = [{'k': 'bf', 'p': p, 'mode': m, 'catch': True, 'ch': []} for p in paths for m in ('ok', 'rb')]
+        pi = -1
+        for a in first:
+            for b in second:
+                pi += 1
+                if pi % n != i:
+                    continue
+                acc.count('programs')
+                for t0 in sp['t0']:
+                    world.start()
+                    for m in gen.T0S[t0]:
+                        world.mutate(m)
+                    world.build({'level': sp['level'], 'root': [dict(a)]})
+                    if world.diverged:
+                        continue
+                    acc.count('histories')
+                    run_build(world, acc, {'level': sp['level'], 'root': [dict(b)]}, wf, 'pair')
+        return acc.result(world, capped)
     for pi, prog in enumerate(gen.family(sp)):
         if pi % n != i:
             continue
